@@ -253,7 +253,7 @@ def r2(ctx):
         env = {u(n.targets[0]): n.value for n in walk_no_nested(evf.node) if isinstance(n, ast.Assign)}
         src = env.get(u(rets[0].left))
         ok = src is not None and u(src) == "self.expression()"
-    ctx.check(ok, "preprocessor:ExpressionEvaluator.evaluate:nonzero", f"evaluate() must return `self.expression() != 0`: {[u(r) for r in rets]}", evf.loc())
+    ctx.soft(ok, "preprocessor:ExpressionEvaluator.evaluate:nonzero", f"evaluate() must return `self.expression() != 0`: {[u(r) for r in rets]}", evf.loc())
     ctx.floor(19 * 3 + 19 + 4 + 2)
 
 
@@ -279,7 +279,7 @@ def r3(ctx):
     # match_any returns the first matching literal
     ma = repo.func("preprocessor", "Lexer.match_any")
     firstwins = any(isinstance(n, ast.For) and any(isinstance(x, ast.Return) for x in ast.walk(n)) for n in ma.node.body)
-    ctx.check(firstwins, "preprocessor:Lexer.match_any:first-match", "match_any must return at the first matching literal", ma.loc())
+    ctx.soft(firstwins, "preprocessor:Lexer.match_any:first-match", "match_any must return at the first matching literal", ma.loc())
     for fname, tab, var in (("__apply_binary_op", set(binops) - {"?"}, "op"), ("__apply_unary_op", set(unops), "op")):
         f = ee.find_method(fname)
         ctx.require(f is not None, f"ExpressionEvaluator.{fname} missing")
@@ -424,7 +424,7 @@ def r6(ctx):
     # unsignedness test
     un = [n for n in walk_no_nested(term.node) if isinstance(n, ast.If) and "suffix" in u(n.test) and "np.uint64" in u(n.body)]
     ok = len(un) == 1 and u(un[0].test) in ("suffix and 'u' in suffix.lower()",) and u(un[0].orelse).startswith("return np.int64(")
-    ctx.check(ok, "preprocessor:ExpressionEvaluator.term:unsigned-iff-u-suffix", f"value must be uint64 iff the suffix contains u/U, int64 otherwise: {[u(x.test) for x in un]}", term.loc())
+    ctx.soft(ok, "preprocessor:ExpressionEvaluator.term:unsigned-iff-u-suffix", f"value must be uint64 iff the suffix contains u/U, int64 otherwise: {[u(x.test) for x in un]}", term.loc())
     # the suffix loop strips exactly the matched suffix once
     loops = [n for n in walk_no_nested(term.node) if isinstance(n, ast.For) and u(n.iter) == "suffixes"]
     ok = len(loops) == 1
@@ -435,10 +435,10 @@ def r6(ctx):
             and any(u(s) == f"value = value[:-len({u(loops[0].target)})]" for s in body[0].body)
             and isinstance(body[0].body[-1], ast.Break)
         )
-    ctx.check(ok, "preprocessor:ExpressionEvaluator.term:suffix-strip", "suffix loop must strip the first (longest) matching suffix exactly once and stop", term.loc())
+    ctx.soft(ok, "preprocessor:ExpressionEvaluator.term:suffix-strip", "suffix loop must strip the first (longest) matching suffix exactly once and stop", term.loc())
     # conversion
     conv = [n for n in walk_no_nested(term.node) if isinstance(n, ast.Call) and u(n.func) == "int" and len(n.args) == 2]
-    ctx.check(len(conv) == 1 and [u(a) for a in conv[0].args] == ["value", "base"], "preprocessor:ExpressionEvaluator.term:int-conversion", "value must be int(value, base)", term.loc())
+    ctx.soft(len(conv) == 1 and [u(a) for a in conv[0].args] == ["value", "base"], "preprocessor:ExpressionEvaluator.term:int-conversion", "value must be int(value, base)", term.loc())
     # D7: unsuffixed literal >= 2**63 (pinned by tests/failure/test_bignum)
     signed = [n for n in walk_no_nested(term.node) if isinstance(n, ast.Return) and u(n.value) == "np.int64(int_value)"]
     if signed:
@@ -502,9 +502,9 @@ def r7(ctx):
         b = t.body
         if len(b) == 2 and u(b[0]) == "self.match_type(Identifier)" and isinstance(b[1], ast.Return):
             ok = u(b[1].value) == "np.int64(0)"
-    ctx.check(ok, "preprocessor:ExpressionEvaluator.term:identifier-is-0", "a residual identifier must evaluate to int64 0", term.loc())
+    ctx.soft(ok, "preprocessor:ExpressionEvaluator.term:identifier-is-0", "a residual identifier must evaluate to int64 0", term.loc())
     rets = [u(n.value) for n in walk_no_nested(call.node) if isinstance(n, ast.Return)]
-    ctx.check(rets == ["np.int64(0)"], "preprocessor:ExpressionEvaluator.call:residual-call-is-0", f"a residual function-like call must evaluate to int64 0: {rets}", call.loc())
+    ctx.soft(rets == ["np.int64(0)"], "preprocessor:ExpressionEvaluator.call:residual-call-is-0", f"a residual function-like call must evaluate to int64 0: {rets}", call.loc())
     # term() tries alternatives in an order in which `call` precedes plain identifier
     order = []
     for t in [n for n in term.node.body if isinstance(n, ast.Try)]:
@@ -521,17 +521,17 @@ def r7(ctx):
     ctx.require(dblock is not None, "MacroExpander.expand: `defined` block not found")
     txt = u(dblock)
     ok = "if tok.token == '('" in txt and "ident = tok" in txt and "self.replace_tok(self.defined(ident))" in txt and isinstance(dblock.body[-1], ast.Continue)
-    ctx.check(ok, "preprocessor:MacroExpander.expand:defined-both-forms", "both `defined X` and `defined(X)` must be replaced by the platform's answer without expanding X", exp.loc(dblock))
+    ctx.soft(ok, "preprocessor:MacroExpander.expand:defined-both-forms", "both `defined X` and `defined(X)` must be replaced by the platform's answer without expanding X", exp.loc(dblock))
     # defined() -> is_defined(str(identifier)) numerical constant
     d = repo.func("preprocessor", "MacroExpander.defined")
     ok = any(isinstance(n, ast.Call) and u(n.func) == "self.platform.is_defined" and u(n.args[0]) in ("str(identifier)", "identifier.token") for n in walk_no_nested(d.node))
     rets = [n.value for n in walk_no_nested(d.node) if isinstance(n, ast.Return)]
     ok = ok and len(rets) == 1 and isinstance(rets[0], ast.Call) and u(rets[0].func) == "NumericalConstant" and u(rets[0].args[-1]) == "value"
-    ctx.check(ok, "preprocessor:MacroExpander.defined:asks-platform", "defined(X) must become a NumericalConstant holding platform.is_defined(X)", d.loc())
+    ctx.soft(ok, "preprocessor:MacroExpander.defined:asks-platform", "defined(X) must become a NumericalConstant holding platform.is_defined(X)", d.loc())
     # the `defined` test precedes macro lookup of the same token
     idx_def = dblock.lineno
     lookups = [n.lineno for n in walk_no_nested(exp.node) if isinstance(n, ast.Call) and u(n.func) == "self.platform.get_macro"]
-    ctx.check(bool(lookups) and all(l > idx_def for l in lookups), "preprocessor:MacroExpander.expand:defined-before-lookup", "`defined` must be handled before macro lookup", exp.loc())
+    ctx.soft(bool(lookups) and all(l > idx_def for l in lookups), "preprocessor:MacroExpander.expand:defined-before-lookup", "`defined` must be handled before macro lookup", exp.loc())
     ctx.floor(6)
 
 
